@@ -145,11 +145,51 @@ func TestC03_LimiterBound(t *testing.T) {
 		if byIP && rapid.Bool().Draw(t, "shuffleIPs") {
 			ips[0], ips[2] = ips[2], ips[0]
 		}
+		// some sources get rates of their own through the ExtractRates option (plans with longer or
+		// shorter periods than the default ones); each source is bound by ITS rates
+		ratesOf := make([][]gen.Rate, nsrc)
+		setOf := make([]*ratelimit.RateSet, nsrc)
+		ownRates := false
+		for i := range ratesOf {
+			ratesOf[i], setOf[i] = rates, rs
+			if !byIP && rapid.IntRange(0, 3).Draw(t, "ownRates") == 0 {
+				rr := gen.Rates(t, false, 5)
+				if rapid.Bool().Draw(t, "slowPlan") { // a plan much slower than the default rates
+					rr = []gen.Rate{{Period: rapid.SampledFrom([]time.Duration{time.Minute, 10 * time.Minute, time.Hour}).Draw(t, "slowPeriod"), Average: int64(rapid.IntRange(1, 6).Draw(t, "slowAvg")), Burst: int64(rapid.IntRange(1, 6).Draw(t, "slowBurst"))}}
+				}
+				if set, err := gen.RateSet(rr); err == nil {
+					ratesOf[i], setOf[i], ownRates = rr, set, true
+				}
+			}
+		}
+		if ownRates {
+			opts = append(opts, ratelimit.ExtractRates(ratelimit.RateExtractorFunc(func(r *http.Request) (*ratelimit.RateSet, error) {
+				if i, err := strconv.Atoi(strings.TrimPrefix(r.Header.Get("X-Src"), "s")); err == nil && i < nsrc {
+					return setOf[i], nil
+				}
+				return rs, nil
+			})))
+		}
 		tl, err := ratelimit.New(next, extractor, rs, opts...)
 		if err != nil {
 			t.Fatalf("New: %v", err)
 		}
 		segs := genHistory(t, rates, nsrc)
+		if ownRates { // requests no larger than the smallest burst in force
+			for i := range segs {
+				for _, r := range ratesOf[segs[i].src] {
+					if segs[i].amt > r.Burst {
+						segs[i].amt = r.Burst
+					}
+				}
+			}
+			// idle gaps that matter for slow plans: longer than the default entry lifetime
+			for i := range segs {
+				if rapid.IntRange(0, 5).Draw(t, "longIdle") == 0 {
+					segs[i].gap = rapid.SampledFrom([]time.Duration{12 * time.Second, 15 * time.Second, 45 * time.Second, 2 * time.Minute}).Draw(t, "idleGap")
+				}
+			}
+		}
 		if byIP {
 			for i := range segs {
 				segs[i].amt = 1
@@ -220,8 +260,8 @@ func TestC03_LimiterBound(t *testing.T) {
 			}
 		}
 		for s := 0; s < nsrc; s++ {
-			if ok, msg := checkBound(admitted[s], rates); !ok {
-				t.Fatalf("source s%d admitted faster than its rate: %s\nrates=%v capacity=%d phase=%v\nsegments=%+v", s, msg, rates, capacity, phase, segs)
+			if ok, msg := checkBound(admitted[s], ratesOf[s]); !ok {
+				t.Fatalf("source s%d admitted faster than its rate: %s\nits rates=%v (default rates=%v) capacity=%d phase=%v\nsegments=%+v", s, msg, ratesOf[s], rates, capacity, phase, segs)
 			}
 		}
 		anyRej := false
@@ -244,6 +284,9 @@ func TestC03_LimiterBound(t *testing.T) {
 		}
 		if byIP {
 			cl = append(cl, "source=client.ip")
+		}
+		if ownRates {
+			cl = append(cl, "per-source-rates-via-ExtractRates")
 		}
 		vstat.Case(fmt.Sprintf("%v|%v|%d|%v|%+v", byIP, rates, capacity, phase, segs), nt, cl, map[string]any{"rates": fmt.Sprint(rates), "sources": nsrc, "capacity": capacity, "segments(src,k,gap,amt)": fmt.Sprintf("%+v", segs), "requests": total})
 	})
